@@ -143,6 +143,17 @@ func c07runHistory(rep *vh.Report, keyRaw []byte, key *frame.V2Key, hist []uint6
 				rep.Violation("what=reader hist="+c07histKey(hist[:i+1]), "delivered frame carries a different timestamp", hist)
 				return
 			}
+			if got && (i+len(hist))%2 == 0 {
+				// the frame is the application's now: it wipes or re-stamps the signature fields (before forwarding it). What the
+				// reader remembers is its own
+				v2 := fr.(*frame.V2Frame)
+				if i%4 < 2 {
+					v2.SignatureTimestamp = 0
+				} else {
+					v2.SignatureTimestamp = 0xFFFFFFFFFFFF
+				}
+				v2.SignatureLinkID ^= 0xFF
+			}
 			if got != want {
 				verdict := "refused a frame inside the window"
 				if got {
